@@ -90,7 +90,7 @@ func main() {
 						return
 					}
 					// the same question scaled by a power of two (exact): the answer cannot change
-					for _, k := range []float64{1024, 1.0 / 64} {
+					for _, k := range []float64{1024, 1.0 / (1 << 40)} {
 						if got := planar.RingContains(refgeom.Scale(v, k).(orb.Ring), orb.Point{pf[0] * k, pf[1] * k}); got != want {
 							c.Failf("scaling", "RingContains(%v, %v) = %v after scaling both by %v, %v before", v, pf, got, k, want)
 							return
